@@ -197,4 +197,11 @@ def serverSeeds (sha256 : Bytes → Bytes) (seed : Bytes) (iatMode : Nat) : Dist
   { len := seed
     iat := if iatMode != iatNone then some ((sha256 seed).take O4.Consts.Obfs4.seedLength) else none }
 
+/-- several live client connections (of one `ClientFactory`): each `obfs4Conn` owns its
+    distributions, so the PRNG-seed packet received on connection `i` re-seeds that connection
+    only -/
+def adoptAt (sha256 : Bytes → Bytes) (conns : List DistSeeds) (i : Nat) (payload : Bytes) :
+    List DistSeeds :=
+  conns.modify i (fun d => adoptSeed sha256 false d payload)
+
 end O4.Shaping
